@@ -32,7 +32,7 @@ def load_mutants(pid: str) -> list[dict]:
 
 def apply_mutant(root: Path, m: dict) -> str | None:
     """returns an error string if the mutant cannot be applied"""
-    edits = m.get("edits") or [{"file": m["file"], "find": m["find"], "replace": m["replace"]}]
+    edits = m.get("edits") or [{"file": m["file"], "find": m["find"], "replace": m["replace"], "count": m.get("count", 1)}]
     for e in edits:
         f = root / e["file"]
         if not f.exists():
